@@ -238,9 +238,9 @@ func generate(r *gen.Rand, tier string, big, huge bool) *gcase {
 		perSer = 1 + r.Intn(4)
 	}
 	if huge {
-		// more than maxSamplesInAppender (5000) samples in one block: several appender batches.
-		// Only ordered layouts (the model has one Commit per block; for ordered inputs the
-		// batching cannot be observed), distinct label sets by construction.
+		// more than maxSamplesInAppender (5000) samples in one block: several appender batches
+		// (Append is checked against committed samples only, so out-of-order lines after a
+		// batch boundary are fatal while those inside a batch are dropped silently)
 		nser = 2600 + r.Intn(900)
 	}
 	g.series = genSeries(r, nser)
@@ -291,9 +291,6 @@ func generate(r *gen.Rand, tier string, big, huge bool) *gcase {
 	// layout
 	var order []pt
 	layout := r.Intn(10)
-	if huge {
-		layout = []int{0, 1, 2, 3, 4, 5, 6, 8}[r.Intn(8)]
-	}
 	switch {
 	case layout <= 2: // grouped per series (valid OpenMetrics)
 		g.gen = "grouped"
@@ -388,7 +385,7 @@ func generate(r *gen.Rand, tier string, big, huge bool) *gcase {
 		g.lines = append(g.lines, line{ser: p.ser, ms: p.ms, val: v, tsFm: m})
 	}
 	// conflicting duplicate (same series and timestamp, other value)
-	if !huge && r.Chance(1, 12) && len(g.lines) > 0 {
+	if r.Chance(1, 12) && len(g.lines) > 0 {
 		i := r.Intn(len(g.lines))
 		if g.lines[i].ser >= 0 {
 			dup := g.lines[i]
@@ -446,6 +443,36 @@ func generate(r *gen.Rand, tier string, big, huge bool) *gcase {
 
 func fixed(series []string, maxDur string, maxDurMs int64, corpus string, ls ...line) *gcase {
 	return &gcase{series: series, lines: ls, maxDur: maxDur, maxDurMs: maxDurMs, gen: "corpus", corpus: corpus}
+}
+
+// batchCorpus: 5000 series with one sample each at 5ms (one full appender batch), preceded by a
+// sample in the window before, plus one more line for series 0 placed after the batch boundary
+// (fatal "add sample") or inside the first batch (dropped silently).
+func batchCorpus() []*gcase {
+	hs := make([]string, 5000)
+	for i := range hs {
+		hs[i] = fmt.Sprintf("h%d", i)
+	}
+	mk := func(name string, extra line, at int) *gcase {
+		g := &gcase{series: hs, gen: "corpus", corpus: name, quiet: true}
+		g.lines = append(g.lines, line{ser: 0, ms: -1, val: "1"})
+		for i := 0; i < 5000; i++ {
+			if i == at {
+				g.lines = append(g.lines, extra)
+			}
+			g.lines = append(g.lines, line{ser: i, ms: 5, val: "1"})
+		}
+		if at >= 5000 {
+			g.lines = append(g.lines, extra)
+		}
+		return g
+	}
+	return []*gcase{
+		mk("batch-boundary-out-of-order-after", line{ser: 0, ms: 4, val: "1"}, 5000),
+		mk("batch-boundary-out-of-order-inside", line{ser: 0, ms: 4, val: "1"}, 1),
+		mk("batch-boundary-conflicting-duplicate-after", line{ser: 0, ms: 5, val: "2"}, 5000),
+		mk("batch-boundary-exact-duplicate-after", line{ser: 0, ms: 5, val: "1"}, 5000),
+	}
 }
 
 func corpus() []*gcase {
@@ -762,6 +789,10 @@ func main() {
 
 	var cases []*gcase
 	cases = append(cases, corpus()...)
+	if f.Tier == "thorough" || os.Getenv("VERIF_C50_BATCH") != "" {
+		cases = append(cases, batchCorpus()...)
+	}
+	genBase := len(cases)
 	n := f.Count(24, 600)
 	nbig := f.Count(1, 8)
 	nhuge := f.Count(0, 2)
@@ -881,6 +912,9 @@ func main() {
 		shape := class
 		if wf && !ordered {
 			shape = "unordered-within-window"
+			if o.kind == "create-err" {
+				shape = "unordered-add-sample-error"
+			}
 		}
 		if o.kind == "other" {
 			shape = "harness-could-not-observe"
@@ -909,7 +943,7 @@ func main() {
 		if len(text) <= 4000 {
 			dsc.Text = text
 		} else {
-			dsc.Text = text[:4000] + "...(truncated; regenerate from seed and case index " + strconv.Itoa(i-len(corpus())) + ")"
+			dsc.Text = text[:4000] + "...(truncated; regenerate from seed and case index " + strconv.Itoa(i-genBase) + ")"
 		}
 		for _, b := range o.blocks {
 			dsc.Blocks = append(dsc.Blocks, [3]int64{b.mint, b.maxt, int64(len(b.samples))})
